@@ -41,29 +41,41 @@ def _cond_truth(ci, c):
     return c  # hg is a host-module global equal to 42
 
 
-def cond_gate(ci: int, c1: bool, c2: bool, c3: bool, fc: int, bk: int, msg: str) -> str:
+def cond_gate(ci: int, c1: bool, c2: bool, c3: bool, fc: int, bk: int, msg: str, ak: int) -> str:
     """
     A conditional tracepoint over three hits: collects exactly on the hits whose condition is true, within fire_count;
     rejected hits (false / failing) use no budget. The failing condition raises an exception whose MESSAGE is symbolic.
-    PRE: 0 <= ci <= 8 and 0 <= bk <= 3 and len(msg) <= 4
+    The gated action is a snapshot (ak 0), a log line (1), a metric (2) or a span (3).
+    PRE: 0 <= ci <= 8 and 0 <= bk <= 3 and len(msg) <= 4 and 0 <= ak <= 3
     POST: _ == ""
     """
     world.begin_path()
     from deep.api.tracepoint.trigger import build_trigger
-    w = World()
-    ci, bk = world.realize(ci), world.realize(bk)
+    from deep.api.tracepoint.tracepoint_config import MetricDefinition
+    P = plugins()
+    log = []
+    w = World(plugin_list=[P["RecLogger"](log), P["RecMetricProcessor"](log), P["RecSpanProcessor"](log)])
+    ci, bk, ak = world.realize(ci), world.realize(bk), world.realize(ak)
     args = {"fire_count": fc, "fire_period": "0"}
     if CONDS[ci] is not None:
         args["condition"] = CONDS[ci]
-    w.install([build_trigger("tp1", "f.py", 7, args, [], [])])
+    metrics = []
+    if ak == 1:
+        args.update(snapshot="no_collect", log_msg="m")
+    elif ak == 2:
+        args.update(snapshot="no_collect")
+        metrics = [MetricDefinition("m", "COUNTER")]
+    elif ak == 3:
+        args.update(snapshot="no_collect", span="line")
+    w.install([build_trigger("tp1", "f.py", 7, args, [], metrics)])
     fired = []
     hits = [c1, c2, c3]
     for i, c in enumerate(hits):
         w.clock.t = 10 + i
-        before = len(w.push.snapshots)
+        before = len(w.push.snapshots) + len([e for e in log if e[0] in ("log", "counter", "open")])
         frame = FakeFrame("/app/f.py", "fn", 7, {"c": world.realize(c), "boom": _raiser(bk, msg)}, {"hg": 42})
         w.event(frame, "line", None)
-        if len(w.push.snapshots) != before:
+        if len(w.push.snapshots) + len([e for e in log if e[0] in ("log", "counter", "open")]) != before:
             fired.append(i)
     world.reached()
     want, n = [], 0
@@ -141,9 +153,12 @@ def scope(ni: int, site: int, lv: int, gv: int, shadow: bool) -> str:
         args["condition"] = ("(%s) == %r" % (expr, val0)) if ok0 else ("(%s) is not None or True" % expr)
     w.install([build_trigger("tp1", "f.py", 7, args, watches, metrics)])
     frame = FakeFrame("/app/f.py", "fn", 7, l, g)
+    g_before = dict(g)
     w.event(frame, "line", None)
     world.reached()
-    ok, val = _py_eval(expr, g, l)
+    if {k: v for k, v in g.items() if k != "__builtins__"} != g_before:
+        return "C10:scope:evaluation-changed-the-module-globals"
+    ok, val = _py_eval(expr, dict(g), l)
     if site == 0:
         if len(w.push.snapshots) != 1:
             return "C10:scope:no-snapshot"
@@ -267,11 +282,12 @@ MUTANTS = {"agent_globals": _mut_agent_globals, "record_before_condition": _mut_
            "failed_condition_by_message": _mut_failed_condition_by_message}
 
 CONDITIONS = [
-    dict(fn="cond_gate", cubes=["ci == %d and bk == %d" % (i, b) for i in range(9) for b in ((0, 1, 2, 3) if i == 5 else (0,))],
-         twins=["reach", "mutant:record_before_condition@ci == 0 and bk == 0", "mutant:failed_condition_by_message@ci == 5 and bk == 0",
-                "mutant:agent_globals@ci == 8 and bk == 0"],
+    dict(fn="cond_gate", cubes=["ci == %d and bk == %d and ak == 0" % (i, b) for i in range(9) for b in ((0, 1, 2, 3) if i == 5 else (0,))] +
+                              ["ci == %d and bk == 0 and ak == %d" % (i, a) for i in (0, 3, 5, 7) for a in (1, 2, 3)],
+         twins=["reach", "mutant:record_before_condition@ci == 0 and bk == 0 and ak == 0", "mutant:failed_condition_by_message@ci == 5 and bk == 0 and ak == 0",
+                "mutant:agent_globals@ci == 8 and bk == 0 and ak == 0"],
          bounds="3 hits, per-hit boolean local symbolic, fire_count unbounded int, 9 condition flavours incl. failing ones whose "
-                "exception message is a free string <= 4 chars, 4 exception classes (Exception, BaseException subclass, KeyboardInterrupt, SystemExit)"),
+                "exception message is a free string <= 4 chars, 4 exception classes (Exception, BaseException subclass, KeyboardInterrupt, SystemExit); the gated action is a snapshot, a log line, a metric or a span"),
     dict(fn="scope", cubes=["ni == %d and site == %d" % (n, s) for n in range(9) for s in range(4)],
          twins=["reach", "mutant:agent_globals@ni == 1 and site == 0", "mutant:agent_globals@ni == 3 and site == 3"],
          bounds="9 names (local, host global, builtin, 5 agent-module names, __name__) x 4 evaluation sites; values 0..1; local shadowing the global"),
